@@ -152,6 +152,8 @@ def run(ctx):
             cfg["scale"] = 10.0 ** ctx.rng.choice([-6, -3, 0, 3, 4.5, 6])
             cfg["singleton_init"] = (i % 2 == 0)
             cfgs.append(cfg)
+        # many dimensions at the extreme scales (NW = 60, sensor variances up to 1e12)
+        cfgs += tu.high_dimensional_configs(ctx.rng, (1e6, 10 ** 4.5) if ctx.quick() else (1e6, 10 ** 4.5, 1e3, 1e-2, 1e5))
         floors = [{"floor": True, "n": ctx.rng.randint(1, 6), "seed": ctx.rng.randrange(2 ** 31),
                    "eps": str(Fraction(ctx.rng.choice([0, 1, 3, 8]), 16))} for _ in range(60 if ctx.quick() else 600)]
     import random as pyrandom
@@ -196,12 +198,20 @@ def run(ctx):
                 return lab
             patch = tu.patched(cla, "build_initial_clusters", init)
         with (patch if patch is not None else tu.patched(cla, "build_initial_clusters", cla.build_initial_clusters)):
-            res, tr, err, series = tu.execute(cfg, trace=False)
+            res, tr, err, series = tu.execute(cfg, capture_kernel=True)
         if err is not None:
             ctx.count("runs_raised:" + type(err).__name__)
             ctx.case(("cfg", repr(sorted(cfg.items()))))
             continue
         bad = []
+        # "every MRF the library ... scores points against ... a finite log-determinant": the cost table handed to the
+        # labelling step in EVERY round (minus the log-likelihood of each window under each cluster) must be finite
+        for j, kc in enumerate(getattr(tr, "kernel_calls", []) or []):
+            tab = np.asarray(kc["table"], dtype=float)
+            if not np.all(np.isfinite(tab)):
+                p_, k_ = [int(v) for v in np.argwhere(~np.isfinite(tab))[0]]
+                bad.append(f"round {j}: the log-likelihood of window {p_} under cluster {k_} is {-tab[p_, k_]}")
+                break
         for k, m in enumerate(res.markov_random_fields):
             why = spd_check(m)
             if why:
